@@ -187,3 +187,86 @@ def check_lu(case, impl):
             if abs(r) > gamma(3 * n + 2) * bound + gamma(2) * abs(m["b"][b * n + i]):
                 return f"block {b}: residual (b - A x)[{i}] = {float(r):.3e} exceeds the rounding envelope {float(gamma(3*n+2)*bound):.3e}"
     return None
+
+# ----------------------------------------------------------------------------- C08
+def lt_index(i, j):
+    return i * (i - 1) // 2 + j
+
+def textbook(s, a, c, m, e, g):
+    Ginv = [[F(0)] * s for _ in range(s)]
+    for i in range(s):
+        Ginv[i][i] = 1 / g
+        for j in range(i):
+            Ginv[i][j] = -c[lt_index(i, j)]
+    Gm = [[F(0)] * s for _ in range(s)]
+    for col in range(s):
+        for i in range(s):
+            rhs = F(1) if i == col else F(0)
+            acc = rhs - sum(Ginv[i][k] * Gm[k][col] for k in range(i))
+            Gm[i][col] = acc / Ginv[i][i]
+    A = [[F(0)] * s for _ in range(s)]
+    for i in range(s):
+        for j in range(i):
+            A[i][j] = a[lt_index(i, j)]
+    alpha = [[sum(A[i][k] * Gm[k][j] for k in range(s)) for j in range(s)] for i in range(s)]
+    b = [sum(m[k] * Gm[k][j] for k in range(s)) for j in range(s)]
+    bh = [sum((m[k] - e[k]) * Gm[k][j] for k in range(s)) for j in range(s)]
+    return alpha, Gm, b, bh
+
+def order_residuals(s, alpha, gam, b):
+    beta = [[(alpha[i][j] + gam[i][j]) if j < i else F(0) for j in range(s)] for i in range(s)]
+    al = [sum(alpha[i]) for i in range(s)]
+    be = [sum(beta[i][j] for j in range(i)) for i in range(s)]
+    g = gam[0][0]
+    R = range(s)
+    out = {}
+    out['o1'] = (1, sum(b) - 1)
+    out['o2'] = (2, sum(b[i] * be[i] for i in R) - (F(1, 2) - g))
+    out['o3a'] = (3, sum(b[i] * al[i] ** 2 for i in R) - F(1, 3))
+    out['o3b'] = (3, sum(b[i] * beta[i][j] * be[j] for i in R for j in R) - (F(1, 6) - g + g * g))
+    out['o4a'] = (4, sum(b[i] * al[i] ** 3 for i in R) - F(1, 4))
+    out['o4b'] = (4, sum(b[i] * al[i] * alpha[i][j] * be[j] for i in R for j in R) - (F(1, 8) - g / 3))
+    out['o4c'] = (4, sum(b[i] * beta[i][j] * al[j] ** 2 for i in R for j in R) - (F(1, 12) - g / 3))
+    out['o4d'] = (4, sum(b[i] * beta[i][j] * beta[j][k] * be[k] for i in R for j in R for k in R) - (F(1, 24) - g / 2 + F(3, 2) * g * g - g ** 3))
+    return out, al, [sum(gam[i]) for i in R]
+
+DOC_ORDER = {"TwoStageRosenbrockParameters": 2, "ThreeStageRosenbrockParameters": 3, "FourStageRosenbrockParameters": 4,
+             "FourStageDifferentialAlgebraicRosenbrockParameters": 3, "SixStageDifferentialAlgebraicRosenbrockParameters": 4}
+
+def c08_numeric(ros):
+    """evaluate every algebraic condition of C08 on the translated tables; returns list of failure strings"""
+    fails = []
+    tol = F(1, 10 ** 14)
+    for name, d in ros.items():
+        s = d["stages"]
+        a = [F(x) for x in d["a"]]; c = [F(x) for x in d["c"]]; m = [F(x) for x in d["m"]]; e = [F(x) for x in d["e"]]
+        g = F(d["gamma"][0])
+        if g == 0:
+            fails.append(f"{name}: gamma_[0] = 0"); continue
+        alpha, Gm, b, bh = textbook(s, a, c, m, e, g)
+        p = DOC_ORDER.get(name, 0)
+        res, al, gs = order_residuals(s, alpha, Gm, b)
+        for k, (o, v) in res.items():
+            if o <= p and abs(v) > tol:
+                fails.append(f"{name}: order condition {k} of the main method has residual {float(v):.3e}")
+        resh, _, _ = order_residuals(s, alpha, Gm, bh)
+        for k, (o, v) in resh.items():
+            if o <= p - 1 and abs(v) > tol:
+                fails.append(f"{name}: order condition {k} of the embedded method has residual {float(v):.3e}")
+        for i in range(s):
+            if abs(al[i] - F(d["alpha"][i])) > tol:
+                fails.append(f"{name}: alpha_[{i}] = {d['alpha'][i]!r} but the row sum of alpha_ij is {float(al[i])!r}")
+            if abs(gs[i] - F(d["gamma"][i])) > tol:
+                fails.append(f"{name}: gamma_[{i}] = {d['gamma'][i]!r} but the row sum of gamma_ij is {float(gs[i])!r}")
+        # R(inf)
+        B = [[alpha[i][j] + Gm[i][j] for j in range(s)] for i in range(s)]
+        x = [F(0)] * s
+        for i in range(s):
+            x[i] = (1 - sum(B[i][k] * x[k] for k in range(i))) / B[i][i]
+        rinf = 1 - sum(b[i] * x[i] for i in range(s))
+        bound = F(2, 10 ** 5) if name == "FourStageRosenbrockParameters" else tol
+        if abs(rinf) > bound:
+            fails.append(f"{name}: |R(inf)| = {float(abs(rinf)):.3e} exceeds {float(bound):.1e}")
+        if d["estimator_of_local_order"] != float(p):
+            fails.append(f"{name}: estimator_of_local_order_ = {d['estimator_of_local_order']} but the documented order is {p}")
+    return fails
